@@ -153,7 +153,7 @@ theorem flatReq_closed (A B T q : String) (ty : TypeRef) (fs : List FieldSpec) :
 
 /-- what every request of every call is, for the flat query families: the root request at `A`, or a
     `node` lookup for some non-empty id at `B` -/
-theorem flat_request_cases (h : Fam c A B T q fs) (ty : TypeRef) (url : String) (rq : Request)
+theorem flat_request_cases (ty : TypeRef) (url : String) (rq : Request)
     (hrq : FromReq c none (FlatReq A B T q ty fs) url rq) :
     (url = A ∧ rq = rootRq c A q ty fs (stepsB B T q (Flat.fsB fs))) ∨
     (url = B ∧ Flat.fsB fs ≠ [] ∧ ∃ i, i ≠ "" ∧ rq = rqOf c (stepB B T q (Flat.fsB fs)) [("id", .str i)]) := by
@@ -214,7 +214,7 @@ theorem flat_every_downstream (h : Fam c A B T q fs) (hs : SvcFam c A B T q fs S
   intro cl hcl rq hrq
   have := gatewayCore_calls_from_reqs c {} none down (FlatReq A B T q (.named T) fs) (flatReq_closed A B T q _ fs)
     _ id _ _ hplan (by intro s hs; simp only [List.mem_singleton] at hs; subst hs; exact Or.inl rfl) res hg cl hcl rq hrq
-  exact requestOK_of_cases h hs svcs hsA hsB _ _ _ (flat_request_cases h _ _ _ this)
+  exact requestOK_of_cases h hs svcs hsA hsB _ _ _ (flat_request_cases _ _ _ this)
 
 /-- **a list of objects, EVERY downstream** -/
 theorem flat_list_every_downstream (h : Fam c A B T q fs) (hs : SvcFam c A B T q fs SA SB) (svcs : List Svc)
@@ -233,7 +233,7 @@ theorem flat_list_every_downstream (h : Fam c A B T q fs) (hs : SvcFam c A B T q
   have := gatewayCore_calls_from_reqs c {} none down (FlatReq A B T q (.list (.named T)) fs)
     (flatReq_closed A B T q _ fs) _ id _ _ hplan
     (by intro s hs; simp only [List.mem_singleton] at hs; subst hs; exact Or.inl rfl) res hg cl hcl rq hrq
-  exact requestOK_of_cases h hs svcs hsA hsB _ _ _ (flat_request_cases h _ _ _ this)
+  exact requestOK_of_cases h hs svcs hsA hsB _ _ _ (flat_request_cases _ _ _ this)
 
 /-- a batch all of whose requests are valid passes the validating front -/
 theorem guardValid_of_valid (svcs : List Svc) (down : Downstream) (url : String) (batch : List Request)
@@ -258,7 +258,7 @@ theorem flat_guarded (h : Fam c A B T q fs) (hs : SvcFam c A B T q fs SA SB) (sv
     (by intro s hs; simp only [List.mem_singleton] at hs; subst hs; exact Or.inl rfl)
   intro url batch hb
   exact guardValid_of_valid svcs down url batch
-    (fun rq hrq => (requestOK_of_cases h hs svcs hsA hsB _ _ _ (flat_request_cases h _ _ _ (hb rq hrq))).valid)
+    (fun rq hrq => (requestOK_of_cases h hs svcs hsA hsB _ _ _ (flat_request_cases _ _ _ (hb rq hrq))).valid)
 
 /-- **a list of objects: no invalid request is ever handed to a service** -/
 theorem flat_list_guarded (h : Fam c A B T q fs) (hs : SvcFam c A B T q fs SA SB) (svcs : List Svc)
@@ -277,7 +277,7 @@ theorem flat_list_guarded (h : Fam c A B T q fs) (hs : SvcFam c A B T q fs SA SB
     _ _ hplan (by intro s hs; simp only [List.mem_singleton] at hs; subst hs; exact Or.inl rfl)
   intro url batch hb
   exact guardValid_of_valid svcs down url batch
-    (fun rq hrq => (requestOK_of_cases h hs svcs hsA hsB _ _ _ (flat_request_cases h _ _ _ (hb rq hrq))).valid)
+    (fun rq hrq => (requestOK_of_cases h hs svcs hsA hsB _ _ _ (flat_request_cases _ _ _ (hb rq hrq))).valid)
 
 /-! ### mutations -/
 
